@@ -383,6 +383,26 @@ class Collector:
         self.obs.append(ob)
         return ob
 
+    def renamed(self, mapping: Dict[str, Optional[str]]) -> "Collector":
+        """A view on this collector for SHARING a rule between properties: obligations raised under rule id k are recorded under
+        mapping[k]; ids mapped to None are dropped; ids not in the mapping are dropped too (the sharing property claims only what it
+        names)."""
+        outer = self
+
+        class _View(Collector):
+            def __init__(self):
+                self.prop, self.obs, self.rules, self.info = outer.prop, outer.obs, {}, {}
+
+            def rule(self, rid, text, min_instances=1):
+                pass
+
+            def add(self, rule, *a, **kw):
+                to = mapping.get(rule)
+                if to is None:
+                    return Ob(rule, "", "", "", DISCHARGED, "", 0, {})
+                return Collector.add(outer, to, *a, **kw)
+        return _View()
+
     def ok(self, rule, fi, construct, detail="", **kw):
         return self.add(rule, fi, construct, DISCHARGED, detail, **kw)
 
